@@ -339,6 +339,22 @@ Proof.
   unfold rrun32 in L1, L2. rewrite L1, L2. split; f_equal; destruct s; reflexivity || (destruct s'; reflexivity).
 Qed.
 
+(* the same after re-targeting: SetRasterizer on a used Renderer, then Reset and a program, emits what a fresh
+   Renderer given that rectangle emits *)
+Theorem renderer_retarget_fresh s x0 y0 w h vb pal B :
+  wf_prog false B = true ->
+  exists d, r_log (rrun32 (set_rasterizer N32 s x0 y0 w h) (CReset vb pal :: B)) = r_log s ++ d /\
+            r_log (rrun32 (rinit N32 x0 y0 w h) (CReset vb pal :: B)) = d.
+Proof.
+  intros W.
+  destruct (renderer_reset_fresh (set_rasterizer N32 s x0 y0 w h) (rinit N32 x0 y0 w h) vb pal B) as (d & L1 & L2).
+  1-4: unfold set_rasterizer, rinit; destruct ((w <=? 0) || (h <=? 0)); reflexivity.
+  - exact W.
+  - exists d. split.
+    + rewrite L1. f_equal. unfold set_rasterizer. destruct ((w <=? 0) || (h <=? 0)); reflexivity.
+    + rewrite L2. unfold rinit. destruct ((w <=? 0) || (h <=? 0)); reflexivity.
+Qed.
+
 (* ================= C16 (call level): the target rectangle's origin only appears in Draw ================= *)
 
 Definition move_to (s : S) (x0 y0 : Z) : S :=
